@@ -16,7 +16,7 @@ import threading
 import time
 from collections.abc import Mapping
 
-from vf import core
+from vf import core, steps
 from vf.sched import controller as ctlmod
 
 OK_KINDS = ('ok', 'ok_none', 'ok_int_status')
@@ -360,6 +360,10 @@ def nested_hard_graph(case, tasks, subs=None):
                 if dep in inside:
                     sub.add_dependency(tasks[name], on=tasks[dep])
         subs.append(sub)
+    # sub-graphs that are nodes of other sub-graphs (possibly of several)
+    for gidx, inner in case.get('gmembers', {}).items():
+        for idx in inner:
+            subs[int(gidx)].add_node(subs[idx])
     # the order in which the sub-graphs enter the outer graph is part of the
     # case (dependent groups may come before the groups they depend on)
     for gidx in case.get('gorder', range(len(subs))):
@@ -626,8 +630,17 @@ def run_controlled(case, strategy, mon=None, env=None, tasks_graphs=None,
         ctl.start_watchdog()
         try:
             try:
-                sched = Scheduler(hard_graph=hard, soft_graph=soft,
-                                  backend=backend)
+                # building the scheduler (copy, flatten, merge of the graphs)
+                # is part of the call: it has no scheduling point, so its
+                # termination is decided by a logical step budget
+                counter = steps.get()
+                size = len(case['tasks']) + len(case.get('groups', ())) + 10
+                counter.start(budget=200000 + 400 * size * size)
+                try:
+                    sched = Scheduler(hard_graph=hard, soft_graph=soft,
+                                      backend=backend)
+                finally:
+                    res.build_steps = counter.stop()
                 sched.schedule(env=env)
                 for _ in range(repeat - 1):
                     # the same Scheduler object (same backend) used again,
@@ -654,6 +667,9 @@ def run_controlled(case, strategy, mon=None, env=None, tasks_graphs=None,
             except ctlmod.LostControl as err:
                 res.outcome = 'lost'
                 res.lost = str(err)
+            except steps.StepBudget as err:
+                res.outcome = 'build-budget'
+                res.error = str(err)
             except Exception as err:  # pylint: disable=broad-except
                 res.outcome = 'raised:' + type(err).__name__
                 res.error = repr(err)[:300]
